@@ -211,7 +211,7 @@ def configs(tier):
     first steps), so configurations are multisets of job descriptions."""
     out = []
     if tier == 'quick':
-        plan = [(3, n, (1, 2, 3), (0,), (0, 1), (0,), 1, n) for n in (2, 3)]
+        plan = [(3, 2, (1, 2, 3), (0,), (0, 1), (0,), 1, 2), (3, 3, (1, 2, 3), (0,), (0, 1), (0,), 1, 1)]
     else:
         plan = [(3, 2, (1, 2, 3), (0,), (0, 1, 2), (0, 1), 2, 2),
                 (3, 3, (1, 2, 3), (0,), (0, 1, 2), (0, 1), 2, 3),
@@ -287,7 +287,7 @@ def check(tier, seed, procs):
         'executions_blocked_with_full_capacity_free(not judged)': starved,
         'deviation_bound': 'unbounded (every order of external-event completions over a FIFO ready queue, state-hash pruned)',
         'bounds': ('capacity 3; 2-3 jobs (multisets of job descriptions); weights 1..3; hold 0..1 yields; body returns/raises; '
-                   '0-1 cancelled job' if tier == 'quick' else
+                   '0-1 cancelled job; with 3 jobs at most one raises' if tier == 'quick' else
                    'capacity 3: 2-4 jobs (multisets of job descriptions), weights 1..3, hold 0..2 yields (0..1 for 4 jobs), body '
                    'returns/raises (<=1 raising for 4 jobs), 0-2 cancelled jobs (0-1 for 4 jobs), victim arrival delay 0..1 yields (0 for 4 jobs); '
                    'capacity 2: 2-3 jobs, weights 1..2, hold 0..1'),
